@@ -99,6 +99,9 @@ def case_st(draw):
         if form == "near" and finite:
             # values that no cell equals, but that are next to ones that do (x + 0.5 over integers, the integral part of a fractional x)
             near = [v + draw(st.sampled_from([0.5, -0.5, 0.25])) for v in draw(st.lists(st.sampled_from(finite), min_size=1, max_size=2))]
+            if draw(st.booleans()):
+                # ... or differing in the sixth significant digit only (next to 0: by 1e-9)
+                near = [(float(v) * (1 + 3e-6) if v else 1e-9) for v in draw(st.lists(st.sampled_from(finite), min_size=1, max_size=2))]
             near += [int(v) for v in finite if v != int(v)][:1]
             near = [v for v in near if v not in present] or [99.5]
             p["value"] = near[0] if draw(st.booleans()) else near + draw(st.lists(st.sampled_from(finite), max_size=1))
